@@ -38,7 +38,8 @@ DESCRIBE = {
     "constants": "cooler.create._ingest.SANITIZE_PRESETS vs the defaults the model's options stand for",
 }
 RULE = ("bin tables: uniform (exact and short last bin), variable width, longer last bin, one-bin chromosomes, 2-3 chromosomes with "
-        "length <= 8 (quick) / <= 12 (thorough), plus seeded random segmentations; single records: EVERY (c1,p1,c2,p2) with c in the "
+        "length <= 8 (quick) / <= 12 (thorough), plus seeded random segmentations, plus (thorough) EVERY segmentation of two "
+        "chromosomes of length <= 4; single records: EVERY (c1,p1,c2,p2) with c in the "
         "table's chromosomes or unknown and p in -1..L+2, x zero/one-based x tril_action in {reflect,drop,raise,None}; seeded multisets of "
         "<= 8 records (positions on bin edges, 0, L-1, L, L+1, -1, unknown chromosomes, both orientations, duplicates) in several "
         "permutations and chunkings, with sided/unsided extra columns, sort on/off, validate on/off (unit), decode_chroms on/off, "
@@ -164,10 +165,6 @@ def _agg_cells(out, valcol):
         cells.append([int(a["bin1_id"].iloc[i]), int(a["bin2_id"].iloc[i]), int(a["count"].iloc[i]),
                       int(a[valcol].iloc[i]) if valcol else 0])
     return cells
-
-
-def _d13(ans, impl_outcome, variant_key="l1"):
-    return {"at_len": bool(ans["at_len"]), "agrees_current": impl_outcome == ans[variant_key], "variant": variant_key}
 
 
 def _check_l1_l0(ans, opts):
@@ -770,6 +767,22 @@ def cases(tier, rng):
             for tril in TRILS:
                 late.append(("records_unit", {"bins": bins, "opts": {"one_based": one_based, "tril": tril, "sort": False},
                                               "batches": batches, "kind": f"single-atlength:{label}"}))
+    if thorough:
+        # every valid segmentation of two chromosomes of length <= 4, every in-domain or rejected single record
+        # (records exactly at the length are left to the curated tables above: known finding D13)
+        per = [ws for Lc in range(1, 5) for ws in gen.compositions(Lc)]
+        for w0, w1 in itertools.product(per, repeat=2):
+            bins = gen.chrom_bins(0, w0) + gen.chrom_bins(1, w1)
+            anc = _anchors(bins)
+            L = _sizes(bins)
+            for one_based in (False, True):
+                plain = [a for a in anc if not (a[0] is not None and a[1] - int(one_based) == L[a[0]])]
+                batches = [[[[c1, p1, c2, p2, [], [], [1, 0]]]] for (c1, p1) in plain for (c2, p2) in plain]
+                for tril in ("reflect", "drop"):
+                    case = {"bins": bins, "opts": {"one_based": one_based, "tril": tril, "sort": False}, "batches": batches,
+                            "kind": "single-allsegs"}
+                    yield "records_top", case
+                    yield "records_unit", case
     # ---- seeded multisets ---------------------------------------------------------------------------
     nmulti = 260 if thorough else 70
     for k in range(nmulti):
